@@ -16,7 +16,7 @@ sys.path.insert(0, ROOT)
 from tools import vrun
 from tools.vrun import Break
 
-UNITS = ['sim']          # extended as units are built (see units/*.py)
+UNITS = ['sim', 'lex']          # extended as units are built (see units/*.py)
 NCPU = os.cpu_count() or 8
 
 
@@ -39,19 +39,28 @@ def known_findings():
     return out
 
 
-def classify(r):
-    """split the failures of one harness result into labelled ensures / invariants / safety"""
-    ens, inv, safety, canary = [], [], [], []
+def classify(r, labels=None):
+    """split the failures of one harness result:
+       ens    - a labelled ensures clause that belongs to a property (property-level obligation)
+       helper - proof-internal obligations: loop invariants/decreases, helper-level ensures (no
+                property attached), preconditions of replaced callees, checks raised while
+                evaluating a contract clause.  They never decide a property by themselves: the
+                harness is re-checked bounded with everything inlined (DESIGN.md §2.6)
+       safety - bounds/pointer/overflow/division/assigns-frame obligations raised by the code"""
+    ens, helper, safety, canary = [], [], [], []
+    labels = labels or {}
     for f in r['failures']:
+        is_post = 'postcondition' in f['id'] or 'Check ensures' in f['desc']
         if 'VACUITY_CANARY' in f['desc']:
             canary.append(f)
-        elif f['label'] and ('postcondition' in f['id'] or 'Check ensures' in f['desc']):
+        elif f['label'] and is_post and labels.get(f['label']):
             ens.append(f)
-        elif re.search(r'loop_invariant|loop_decreases|loop_step|loop_assigns|\.unwind\.', f['id']) or ('loop' in f['desc'].lower() and 'invariant' in f['desc'].lower()):
-            inv.append(f)
+        elif f['label'] or is_post or re.search(r'loop_invariant|loop_decreases|loop_step|loop_assigns|\.unwind\.|\.precondition\.', f['id']) \
+                or ('loop' in f['desc'].lower() and 'invariant' in f['desc'].lower()) or re.search(r'__CPROVER_contracts|no_alloc_dealloc|no_recursive', f['id']):
+            helper.append(f)
         else:
             safety.append(f)
-    return ens, inv, safety, canary
+    return ens, helper, safety, canary
 
 
 def main():
@@ -134,10 +143,19 @@ def main():
         rs = list(ex.map(go, hs))
         # ---- triage (DESIGN.md §2.6)
         need_bounded = []
+        # a function whose own harness did not go through leaves every proof that *used* its contract
+        # unsupported: those callers are re-checked bounded with the callee inlined (DESIGN.md §2.6)
+        failed_fns = set(h['fn'] for h, r in zip(hs, rs) if r['status'] != 'ok')
+        failed_fns |= set(pu['breaks'])
         for h, r in zip(hs, rs):
-            ens, inv, safety, canary = classify(r)
+            ens, inv, safety, canary = classify(r, pu['labels'])
             r['_ens'], r['_inv'], r['_safety'] = ens, inv, safety
-            if r['status'] in ('binding-break', 'timeout', 'toolerror') or (r['status'] == 'failed' and (inv or ens)):
+            dep = sorted(set(h.get('replace', [])) & failed_fns)
+            r['_dep'] = dep
+            if dep and r['status'] == 'ok':
+                r['status'] = 'callee-contract-unproved'
+                r['msg'] = 'uses the contract of %s, which was not established' % ', '.join(dep)
+            if r['status'] in ('binding-break', 'timeout', 'toolerror', 'callee-contract-unproved') or r['status'] == 'failed':
                 need_bounded.append(h)
         brs = dict((h['name'], r) for h, r in zip(need_bounded, ex.map(go_bounded, need_bounded)))
         for h, r in zip(hs, rs):
@@ -146,7 +164,7 @@ def main():
             b = brs.get(h['name'])
             if b is not None:
                 results.append(b)
-                b['_ens'], b['_inv'], b['_safety'], _c = classify(b)
+                b['_ens'], b['_inv'], b['_safety'], _c = classify(b, pu['labels'])
             # vacuity guards
             if r['status'] in ('ok', 'failed'):
                 cans = [x for x in r['results'] if 'VACUITY_CANARY' in x['desc']]
@@ -165,7 +183,10 @@ def main():
             labelled = []
             if r['status'] == 'ok':
                 continue
-            if r['status'] == 'failed':
+            helper_only = False
+            if r['status'] == 'failed' and not r.get('_dep'):
+                # (with an unproved callee contract in play the modular run proves and refutes
+                #  nothing; only the bounded run with the callee inlined counts then)
                 labelled += [(f, r) for f in r['_ens']]
                 for f in r['_safety']:
                     labelled.append((f, r))
